@@ -210,7 +210,11 @@ func (se *SpecEnv) eval(e SExpr) (Value, types.Type) {
 				}
 			}
 		}
-		body := n.evalBool(x.Body)
+		vc.quantDepth++
+		body := func() *Term {
+			defer func() { vc.quantDepth-- }()
+			return n.evalBool(x.Body)
+		}()
 		if x.Forall {
 			return Forall(bound, Implies(And(guards...), body)), types.Typ[types.Bool]
 		}
@@ -816,6 +820,10 @@ func (se *SpecEnv) callReal(x SExpr, fn *ssa.Function, args []Value) (Value, typ
 	if m, ok := models[fn.String()]; ok {
 		sub := se.cur.clone()
 		return m(ex, se.fr, sub, se.reach, args, nil), rt
+	}
+	if eff := ex.eng.effectOf(fn); eff == effPure {
+		sub := se.cur.clone()
+		return ex.pureCall(se.fr, sub, se.reach, fn, args, nil), rt
 	}
 	sub := se.cur.clone()
 	fr := se.fr
